@@ -31,7 +31,11 @@ StepOK(a, b, fresh, cmp, boff) ==
          /\ (prevA = "drift" => fresh)                      \* protocol: a new twin after every reported drift ...
          /\ (fresh => boff = prevTotal)                     \* ... shifted by exactly the items A had seen until then
          /\ cmp => EqualProj(a, b, IF fresh THEN boff ELSE off)
-    [] rel = "FirstDriftNotLater" -> (a.state = "drift" /\ ~bDrifted) => b.state = "drift"
+    [] rel = "FirstDriftNotLater" -> /\ (a.state = "drift" /\ ~bDrifted) => b.state = "drift"
+                                     \* both runs have seen the same data under the same seeds and neither has alarmed yet: the critical value the
+                                     \* stricter run compares the (identical) statistic with is not below the looser run's - otherwise a batch whose
+                                     \* statistic falls between the two would make the stricter run alarm first (thr: "None" where there is none)
+                                     /\ (~bDrifted /\ a.thr # "None" /\ b.thr # "None") => ~DefLt(a.thr, b.thr)
     [] rel = "WarningsSuperset" -> /\ (a.state = "drift") = (b.state = "drift")
                                    /\ a.state = "warning" => b.state \in {"warning", "drift"}
     [] rel = "EqualWhileAgree" -> (agree /\ cmp) => NumsEq(a.nums, b.nums)
